@@ -14,3 +14,5 @@ func vAssert(c bool, id string)
 func vReach(id string)
 func vNumValue(lit []byte) float64
 func vNumOverflows(lit []byte) bool
+func vAllocWatch(on bool)
+func vAllocs() int
